@@ -47,6 +47,8 @@ def parse_slot(text):
         else:
             s.affine = None
     elif ty == "B":
+        s.tail_modified = "!" in body
+        body = body.split("!")[0]
         s.bytes = b"" if body == "-" else bytes.fromhex(body)
     return s
 
@@ -324,6 +326,9 @@ class Ref:
                     self.raw[k] = sl.raw
             return mm
         # returned-pointer conventions
+        if outcome.endswith(":slice-modified"):
+            mm.append(Mismatch("arg-modified", op, "the scalars/points slices passed by the caller were rearranged", lineno))
+            outcome = outcome[:-len(":slice-modified")]
         if outcome in ("ok:ret-not-recv", "err:nonnil"):
             mm.append(Mismatch("retptr", op, outcome, lineno))
             outcome = outcome.split(":")[0]
